@@ -134,15 +134,19 @@ impl<P: Protocol> RemoteLink<P> {
             select! {
                 o = self.network.read() => {
                     let packet = o?;
-                    let len = {
+                    let (len, read) = {
                         let mut buffer = self.link_tx.buffer();
                         buffer.push_back(packet);
-                        self.network.readv(&mut buffer)?;
-                        buffer.len()
+                        let read = self.network.readv(&mut buffer);
+                        (buffer.len(), read)
                     };
 
                     trace!("Packets read from network, count = {}", len);
+                    // The packets decoded before a malformed one were sent by the client and are
+                    // already in the router's buffer (a DISCONNECT among them must still cancel
+                    // the will): hand them over before giving up on the connection.
                     self.link_tx.notify().await?;
+                    read?;
                 }
                 // Receive from router when previous when state isn't in collision
                 // due to previously received data request
